@@ -202,7 +202,10 @@ def exec_job(job):
             break
     if job.get("extras", True):
         try:
-            e["cp"] = _copy(cls, build(cls, job["text"], kw))
+            o_cp = build(cls, job["text"], kw)
+            if cls in ("AddrGroup", "addrgroups", "Acl", "acls") and job["tid"] % 4 == 0:
+                o_cp.indent = ""         # rendered without indentation (set through the public property): copies must follow
+            e["cp"] = _copy(cls, o_cp)
             e["conv"] = _conv(cls, job, kw, build(cls, job["text"], kw))
         except Exception as ex:  # noqa
             e["cp"]["exc"] = "harness:" + core.exc_name(ex)
